@@ -257,10 +257,10 @@ PROPS = {
     },
     "C17": {
         "level": "exploration",
-        "race": True, "race_jobs_every": 3,
+        "race": True, "race_jobs_every": 3, "race_modes": [1, 1, 3, 1, 5, 1, 6, 1, 4],
         "quick_runs": 1800, "thorough_runs": 90000, "chunk": 50,
         "thorough_params": {"pre": 40, "rounds": 10},
-        "nontrivial_stat": "op.query,probe.concurrent_clients",
+        "nontrivial_stat": "op.query,probe.concurrent_clients,op.mine",
         "rule": "two kinds of runs. (a) schedule part (2 of 3 jobs): a wallet follows a generated chain; 1-5 times per run "
                 "1-4 chain events (blocks, reorganisations) are queued and ONE query (WalletBalance, AddressBalance, GetUtxo, "
                 "AutoCreateRawTransaction, UseWallet) starts on a goroutine that parks before every database read of its "
@@ -274,6 +274,9 @@ PROPS = {
                 "from the detector (runtime.RaceDisable around them), so the detector reports every pair of accesses of "
                 "wallet memory that the wallet's own synchronisation does not order in the executed schedule - "
                 "deterministically per tape, whether or not they were simultaneous in real time. Reports whose "
-                "access belongs to the simulator are ignored. Non-trivial = a query ran / a concurrent round ran.",
+                "access belongs to the simulator are ignored. Half of the race-detector jobs run this request workload, the others "
+                "run the workloads of C20 (stop placement), C08 (removal), C01 (chain following) and C07 (restore while the "
+                "chain moves) under the race-detector build with their own oracles on. Non-trivial = a query ran / a "
+                "concurrent round ran / another property's workload ran under the detector.",
     },
 }
